@@ -398,6 +398,28 @@ func ruleOwnPropTable(c *Ctx, r *R) {
 	for _, n := range []string{"(*object).writeProperty", "(*object).deleteProperty", "objectClone", "newObject", "(*runtime).newContext", "(*runtime).newConsole", "(*runtime).clone", "newContext"} {
 		allowed[n] = "primitive writer / construction"
 	}
+	// (3) the functions installed as [[DefineOwnProperty]] / [[Delete]] in a class table, when the primitive is written
+	// out in them (DEFINE-guards checks the extensible / configurable tests that must dominate such a write)
+	for _, fn := range c.AllSrcFuncs("") {
+		for _, b := range fn.Blocks {
+			for _, ins := range b.Instrs {
+				if st, ok := ins.(*ssa.Store); ok {
+					if nt, f := fieldOfAddr(st.Addr); nt != nil && nt.Obj().Name() == "objectClass" {
+						if impl, ok := st.Val.(*ssa.Function); ok {
+							w := writers[ssaFuncName(impl)]
+							switch {
+							case w == nil:
+							case f.Name() == "delete" && len(w["property[k]"]) == 0:
+								allowed[ssaFuncName(impl)] = "the [[Delete]] of a class table"
+							case f.Name() == "defineOwnProperty" && len(w["delete(property,k)"]) == 0:
+								allowed[ssaFuncName(impl)] = "the [[DefineOwnProperty]] of a class table"
+							}
+						}
+					}
+				}
+			}
+		}
+	}
 	for _, fname := range sortedKeys(writers) {
 		fields := writers[fname]
 		var fl []string
@@ -415,10 +437,22 @@ func ruleOwnPropTable(c *Ctx, r *R) {
 	} else {
 		r.undecided("pair:writeProperty", "-", "UNRESOLVED (*object).writeProperty")
 	}
-	if w := writers["(*object).deleteProperty"]; w != nil {
-		r.check(len(w["delete(property,k)"]) > 0 && len(w["propertyOrder"]) > 0, "pair:deleteProperty", "object.go", "updates map and order", "deleteProperty must remove the key from both the map and the order list")
-	} else {
-		r.undecided("pair:deleteProperty", "-", "UNRESOLVED (*object).deleteProperty")
+	// whoever removes a key from the map also removes it from the order list
+	nDel := 0
+	for _, fname := range sortedKeys(writers) {
+		w := writers[fname]
+		if len(w["delete(property,k)"]) == 0 {
+			continue
+		}
+		nDel++
+		key := "pair:deleteProperty"
+		if fname != "(*object).deleteProperty" {
+			key = "pair:delete:" + fname
+		}
+		r.check(len(w["propertyOrder"]) > 0, key, w["delete(property,k)"][0], "updates map and order", fname+" removes the key from the property map but not from the order list: the key is still enumerated")
+	}
+	if nDel == 0 {
+		r.undecided("pair:deleteProperty", "-", "UNRESOLVED: no function removes a key from the property map")
 	}
 }
 
